@@ -10,6 +10,32 @@ BASELINE = "cd /repo && /venv/bin/python -m pytest -ra -q -p no:cacheprovider --
 
 # id -> (category, technique, text, note, design_ref, engine)
 CHECKS = {
+    "C01": (
+        "model_checking",
+        "bounded-exhaustive enumeration of all programs of a statement grammar, each run once by the real SEVM.run; every reported path evaluated on every input of a colliding finite grid and compared with a reference EVM",
+        "Every program of <= L statements (quick L=2 over a 100-statement alphabet: arithmetic, memory, storage/transient storage with hashed and "
+        "symbolic locations, keccak, logs, copies, branches, terminators; thorough adds L=3 over a 39-statement alphabet) in both storage layouts is "
+        "executed symbolically once. For every input of the grid (x,y in 6 boundary values colliding with the grammar's constants, callvalue, caller, "
+        "balances) and every reported non-stuck path whose constraints evaluate to true, the claimed error kind, return data (whole memory + probes "
+        "of every touched slot) and logs must equal the reference EVM's run of the same bytecode.",
+        "Trusted: mc/refevm.py, mc/symeval.py (standard interpretation of keccak and f_evm_*). Documented halmos modelling assumptions are inputs to the "
+        "oracle. Claimed for the stated grammar and depths only; calls/creations are covered by C09.",
+        "DESIGN.md §4 C01",
+        "A",
+    ),
+    "C02": (
+        "model_checking",
+        "same bounded-exhaustive program enumeration as C01 plus exhaustive deviation-bounded exploration of the branching solver's answers (every single injected `unknown`, pairs in thorough); coverage and pruning oracles on every run",
+        "For every program, the run with truthful solver answers and every run with exactly one Path.check call answered `unknown` (thorough: every pair "
+        "for programs with <= 8 calls) is executed on the real SEVM.run. Oracles on every run: each input of the grid is covered by the constraints of "
+        "some reported (or stuck = flagged) path; every Exec.check that answered unsat is re-examined (no grid input satisfies path conditions AND the "
+        "rejected condition - pins quick_custom_check, select's store skipping, axioms); and under deviations the end states must still agree with the "
+        "reference EVM (an `unknown` treated as a proof surfaces as a wrong end state).",
+        "Trusted: as C01. The seam is halmos.sevm.Path.check rebound in the harness process (no source hook). Coverage is only demanded for inputs the "
+        "reference EVM can execute and that satisfy halmos's documented assumptions.",
+        "DESIGN.md §4 C02",
+        "A",
+    ),
     "C06": (
         "exploration",
         "exhaustive sweep: every one-instruction program (opcode x operand representation x boundary operands) through the real SEVM.run compared with a reference EVM, plus complete 8-bit/4-bit operand grids through the HalmosBitVec methods",
